@@ -33,11 +33,18 @@ class FunContract:
     """contract of a function-valued parameter / external callable"""
 
     def __init__(self, short, params=(), requires=(), ensures=(), returns=None, raises=None,
-                 effects=(), effects_before=(), effects_exc=()):
+                 effects=(), effects_before=(), effects_exc=(), exc_info=None, pure_result=None):
         self.short = short
         self.params = list(params)
         self.requires = _pairs(requires)
         self.ensures = _pairs(ensures)
+        # exc_info = (spec of type(e).__name__, spec of str(e)) of the exception the callable raises
+        self.exc_info = exc_info
+        # pure_result: the callable is a deterministic total function of its arguments (usable in spec mode,
+        # e.g. as a sort key)
+        self.pure_result = pure_result
+        if pure_result is not None:
+            self.ensures.append(("pure-result", "result == (%s)" % pure_result))
         self.returns = returns
         self.raises = raises
         self.effects = list(effects)
@@ -63,7 +70,8 @@ class Contract:
                  raises=None, modifies=(), effects=(), loops=None, locals=None, inline=False, funcs=None,
                  ghost=None, mode="prove", unroll=None, comps=None, name=None, setup=(), max_paths=None,
                  frame=None, lock=None, replay=None, timeout_ms=None, axioms=(), post_setup=(), pure_result=None, asserts=None, nonlinear=False, unreachable_ok=(),
-                 region=None, sort_facts=True, feas_timeout_ms=None, named_seqs=False):
+                 region=None, sort_facts=True, feas_timeout_ms=None, named_seqs=False,
+                 fs_inv=(), fs_policy=(), fs_opts=None, call_pre=None, witnesses=None):
         self.key = key
         self.prop = prop if isinstance(prop, (list, tuple)) else [prop]
         self.short = name or key.split(":", 1)[1]
@@ -97,6 +105,17 @@ class Contract:
         self.sort_facts = sort_facts
         self.named_seqs = named_seqs
         self.feas_timeout_ms = feas_timeout_ms   # budget of one branch-feasibility query (unknown counts as feasible: sound)
+        # abstract file system (pyvc/fsmodel.py): crash invariant proved after every effect on the ghost `fs`,
+        # effect policy proved at every effect (spec over fs_op / fs_target), fault-alphabet options
+        self.fs_inv = _pairs(fs_inv)
+        self.fs_policy = _pairs(fs_policy)
+        self.fs_opts = dict(fs_opts or {})
+        # {callee key: [(name, spec)]}: caller-side obligations proved in this function's own environment right
+        # before a modular call it makes to that callee (what the caller must have established by then)
+        self.call_pre = {k: _pairs(v) for k, v in (call_pre or {}).items()}
+        # witnesses = {binder: ["lambda j: <spec expr over the function's locals>", ...]}: candidate witnesses for
+        # `exists_fn(binder, ...)` clauses of this contract (only used when the clause is *proved*)
+        self.witnesses = dict(witnesses or {})
         self.unreachable_ok = list(unreachable_ok)
         self.pure_result = pure_result
         if pure_result is not None:
@@ -126,14 +145,18 @@ class Registry:
         self.opaques = {}
         self.fclauses = []
         self.assumed = []          # contracts used at call sites but not verified (dependencies)
+        self.callable_uns = {}     # uninterpreted sort name -> funtype name (values of the sort are callables)
 
     # --- declaration API used by /verif/contracts/*.py
-    def record(self, name, fields, pyclass=None):
+    def record(self, name, fields, pyclass=None, dictlike=False):
+        """frozen record value.  dictlike=True: the value models an (immutable) dict with a fixed universe of string
+        keys -- field k = value of key k, optional bool field has_k = presence (see builtins._rec_dict_key)"""
         t = TRec(name, {k: self.types.parse(v) for k, v in fields.items()}, pyclass)
+        t.dictlike = dictlike
         self.types.declare(name, t)
         return t
 
-    def dictlike(self, name, fields):
+    def dictshape(self, name, fields):
         """a python dict with a fixed set of constant string keys, modelled as an (immutable, encodable) record so that
         it can live in lists/maps.  A key declared as "k?" may be absent (encoded as Optional: none = absent; a present
         key with value None is outside the model): d[k] raises KeyError, d.get(k[, dflt]) yields None/dflt, `k in d`
@@ -147,7 +170,7 @@ class Registry:
                 t = TOpt(t)
             fs[k] = t
         t = TRec(name, fs, None)
-        t.dictlike = True
+        t.dictshape = True      # (not `dictlike`: that flag is R.record(..., dictlike=True), the has_k-style model)
         t.optkeys = opt
         self.types.declare(name, t)
         return t
@@ -178,13 +201,17 @@ class Registry:
         self.types.declare(name, t)
         return t
 
-    def untype(self, name, strlike=False):
-        """uninterpreted sort.  strlike=True: the values are python strings that the code only hashes, compares
-        (==, <) and passes through str(): an opaque totally ordered key sort (str(x) is x, isinstance(x, str))."""
+    def untype(self, name, callable=None, strlike=False):
+        """uninterpreted sort; with callable=<funtype name> its values are opaque callables (storable in
+        lists/tuples) whose calls obey that function contract (`self_fn` names the called value there).
+        strlike=True: the values are python strings that the code only hashes, compares (==, <) and passes through
+        str(): an opaque totally ordered key sort (str(x) is x, isinstance(x, str))."""
         t = TUn(name)
         if strlike:
             STRLIKE.add(name)
         self.types.declare(name, t)
+        if callable is not None:
+            self.callable_uns[name] = callable
         return t
 
     def aggregate(self, name, maptype, value_expr):
@@ -228,6 +255,11 @@ class Registry:
                     (isinstance(d, ast.Name) and d.id == "spec") for d in st.decorator_list):
                 self.spec_funcs[st.name] = (st, m)
 
+    def region(self, tag, selector):
+        """name a statement region of a function: selector(FunctionDef) -> list of its statement nodes.
+        A contract with key '<function key>#<tag>' verifies exactly those statements (free variables = `types`)."""
+        frontend.REGION_SELECTORS[tag] = selector
+
     def lemma(self, name, prop, builder):
         self.lemmas.append((name, prop, builder))
 
@@ -256,6 +288,7 @@ class Registry:
 
 
 REG = Registry()
+_BUILTIN_EXC = set(EXC_PARENT)
 
 
 class Verifier:
@@ -410,7 +443,9 @@ class Verifier:
         return r
 
     def fs_method(self, I, f, name, args, kw):
-        raise Unsupported("file method %s" % name)
+        """methods of file objects: trusted contracts of the abstract file system (pyvc/fsmodel.py)"""
+        from . import fsmodel
+        return fsmodel.file_method(I, f, name, args, kw)
 
     # ---------------------------------------------------------------- aggregates (ghost sums over maps)
     def _agg_f(self, I, agg, m, val_e):
@@ -515,25 +550,38 @@ class Verifier:
             return mk_const(self.reg.consts[name])
         return None
 
+    def _base_class_info(self, ci, b):
+        """ClassInfo of base-class name `b` of repository class `ci` (same module or imported from the repo)"""
+        bi = ci.module.classes.get(b)
+        if bi is None and hasattr(ci.module, "resolve_import"):
+            r = ci.module.resolve_import(b)
+            if r is not None and r[1]:
+                bi = frontend.load_module(r[0], self.repo).classes.get(r[1])
+        return bi
+
+    def _register_exc_class(self, ci, depth=0):
+        """if `ci` derives (through repository classes, possibly imported) from a builtin exception, record its
+        parent in EXC_PARENT and return True"""
+        if ci.name in EXC_PARENT:
+            return True
+        if depth > 20:
+            return False
+        for b in ci.bases:
+            if b in EXC_PARENT:
+                EXC_PARENT[ci.name] = b
+                return True
+            bi = self._base_class_info(ci, b)
+            if bi is not None and self._register_exc_class(bi, depth + 1):
+                EXC_PARENT[ci.name] = bi.name
+                return True
+        return False
+
     def class_value(self, ci):
         t = self.types.named.get(ci.name)
         rec = t if isinstance(t, TRec) else None
         exc_base = None
-        stack = list(ci.bases)
-        seen = set()
-        while stack:
-            b = stack.pop()
-            if b in seen:
-                continue
-            seen.add(b)
-            if b in EXC_PARENT:
-                exc_base = b
-                break
-            bi = ci.module.classes.get(b)
-            if bi is not None:
-                stack.extend(bi.bases)
-        if exc_base is not None and ci.name not in EXC_PARENT:
-            EXC_PARENT[ci.name] = ci.bases[0] if ci.bases[0] in EXC_PARENT or ci.bases[0] in ci.module.classes else exc_base
+        if ci.name not in _BUILTIN_EXC and self._register_exc_class(ci):
+            exc_base = EXC_PARENT[ci.name]
         return VClass(ci.name, ci.node, ci.module, rec=rec, exc_base=exc_base)
 
     def is_exc_class(self, v):
@@ -641,6 +689,37 @@ class Verifier:
                     out.add(r)
         self._gwn = out
         return out
+
+    def ghost_cut_writes(self, c):
+        """ghost variables written by the `ghost:` statements of contract c's cut points: {cut key: {names}}
+        (assignments, mutator calls, and the first argument of the ghost builtin map_set_all)"""
+        cache = getattr(self, "_gcw", None)
+        if cache is None:
+            cache = self._gcw = {}
+        if id(c) not in cache:
+            from .modset import body_mods, _root
+            out = {}
+            for key, cls in c.asserts.items():
+                names = set()
+                for cl in cls:
+                    if not cl.startswith("ghost:"):
+                        continue
+                    body = ast.parse(cl[6:].strip()).body
+                    ns, paths, calls = body_mods(body)
+                    names |= ns
+                    for p in paths:
+                        r = _root(p)
+                        if r:
+                            names.add(r)
+                    for call in calls:
+                        if isinstance(call.func, ast.Name) and call.func.id == "map_set_all" and call.args:
+                            r = _root(call.args[0])
+                            if r:
+                                names.add(r)
+                if names:
+                    out[key] = names
+            cache[id(c)] = out
+        return cache[id(c)]
 
     # ---------------------------------------------------------------- contracts lookup
     def contract_for_call(self, f, I):
@@ -831,6 +910,7 @@ class Verifier:
         ghost_env = Env(None, mod)
         I.ghost_env = ghost_env
         env = Env(ghost_env, mod)
+        I.top_env = env
         try:
             # ghost state
             for gname, (gtype, ginit) in c.ghost.items():
@@ -888,6 +968,7 @@ class Verifier:
             for nm, src in c.requires:
                 path.assume(I.eval_spec(src, env, assume=True))
             I.old_env = I.snapshot_env(env)
+            I.top_env = env
             self.cur_inputs = I.old_env
             if not prefix:
                 if not path.feasible(z3.BoolVal(True)):
@@ -896,6 +977,9 @@ class Verifier:
             f = VFunc("ast", node.name, node=node, module=mod)
             f.qual = c.key
             I.fn_stack.append(f)
+            if c.fs_inv:
+                from . import fsmodel
+                fsmodel.check_inv(I, "entry")
             result = None
             exc = None
             if c.mode == "bounded" and c.unroll:
@@ -937,7 +1021,7 @@ class Verifier:
             if cond is not None and exc_is_sub(exc.cls, cls):
                 path.prove(I.eval_spec(cond, I.old_env), "%s/raises-only-if:%s" % (c.short, cls), "raises", where=cond)
         for nm, src in c.ensures_exc:
-            path.prove(I.eval_spec(src, env), "%s/post-exc:%s" % (c.short, nm), "post", where=src)
+            path.prove(I.eval_spec(src, env, extra={"exc": exc}), "%s/post-exc:%s" % (c.short, nm), "post", where=src)
 
 
 def region_body(c, mod, node):
